@@ -233,20 +233,32 @@ type ExecResult struct {
 func ExecWrite(e *engine.EngineFacade, o Op) ExecResult {
 	switch o.K {
 	case "put":
-		return ExecResult{Err: e.Put(o.Key, o.Value())}
+		// the caller's buffers are its own again once the call has returned:
+		// it overwrites them (what is stored must be the bytes at call time)
+		kb, vb := append([]byte{}, o.Key...), o.Value()
+		err := e.Put(kb, vb)
+		scribbleBytes(kb, vb)
+		return ExecResult{Err: err}
 	case "del":
-		return ExecResult{Err: e.Delete(o.Key)}
+		kb := append([]byte{}, o.Key...)
+		err := e.Delete(kb)
+		scribbleBytes(kb)
+		return ExecResult{Err: err}
 	case "batch":
 		var ents []*wal.Entry
 		for _, s := range o.Sub {
 			switch s.K {
 			case "put":
-				ents = append(ents, &wal.Entry{Type: wal.OpTypePut, Key: s.Key, Value: s.Value()})
+				ents = append(ents, &wal.Entry{Type: wal.OpTypePut, Key: append([]byte{}, s.Key...), Value: s.Value()})
 			case "del":
-				ents = append(ents, &wal.Entry{Type: wal.OpTypeDelete, Key: s.Key})
+				ents = append(ents, &wal.Entry{Type: wal.OpTypeDelete, Key: append([]byte{}, s.Key...)})
 			}
 		}
-		return ExecResult{Err: e.ApplyBatch(ents)}
+		err := e.ApplyBatch(ents)
+		for _, en := range ents {
+			scribbleBytes(en.Key, en.Value)
+		}
+		return ExecResult{Err: err}
 	case "txn":
 		res := ExecResult{SubFound: make([]bool, len(o.Sub)), SubVals: make([][]byte, len(o.Sub))}
 		tx, err := e.BeginTransaction(o.RO)
@@ -319,6 +331,14 @@ func ExecWrite(e *engine.EngineFacade, o Op) ExecResult {
 		return res
 	}
 	return ExecResult{Err: fmt.Errorf("not a write op: %s", o.K)}
+}
+
+func scribbleBytes(bufs ...[]byte) {
+	for _, b := range bufs {
+		for i := range b {
+			b[i] ^= 0x5a
+		}
+	}
 }
 
 // IsNotFound recognises every not-found error kevo's layers use.
